@@ -165,6 +165,22 @@ Example C12_threshold_example :
         (en, [([65; 32; 89; 32; 67; 32; 88; 32; 69]%N, [0; 1; 3; 5; 6; 7; 9; 11; 12])])].
 Proof. vm_compute. reflexivity. Qed.
 
+(* the main language from the babel options, on the tables of /repo
+   (regenerated on every run): main=<language> wins wherever it stands,
+   otherwise the last language option; other key=value options are skipped *)
+From Coq Require Import String.
+From YV Require Import PState Parser Catalogue.
+Local Open Scope string_scope.
+Example C12_main_language_option :
+  let lt l := [LangT 0 (s2l l) false true true] in
+  babel_inject py_tables [(s2l "main", Some (s2l "ngerman")); (s2l "english", None)] = lt "de-DE" /\
+  babel_inject py_tables [(s2l "english", None); (s2l "main", Some (s2l "ngerman"))] = lt "de-DE" /\
+  babel_inject py_tables [(s2l "ngerman", None); (s2l "english", None)] = lt "en-GB" /\
+  babel_inject py_tables [(s2l "main", Some (s2l "klingon")); (s2l "russian", None);
+                          (s2l "shorthands", Some (s2l "off"))] = lt "ru-RU" /\
+  babel_inject py_tables [(s2l "shorthands", Some (s2l "off"))] = [].
+Proof. vm_compute. repeat split; reflexivity. Qed.
+
 Example C12_insertion_example :
   let en := [101; 110]%N in let de := [100; 101]%N in
   sections ([TextT 0 [65]%N; SpaceT 1 [32]%N] ++ LangT 2 de false false false ::
